@@ -60,15 +60,15 @@ func (f *fakePingClient) Ping() (*models.PingResult, error) {
 	return &models.PingResult{MemdEndpoint: "a", MgmtEndpoint: "b"}, nil
 }
 
-func (f *fakePingClient) GetAgent() *gocbcore.Agent                { return nil }
-func (f *fakePingClient) GetMetaAgent() *gocbcore.Agent            { return nil }
-func (f *fakePingClient) Connect() error                           { return nil }
-func (f *fakePingClient) Close()                                   {}
-func (f *fakePingClient) DcpConnect(bool, bool) error              { return nil }
-func (f *fakePingClient) DcpClose()                                {}
-func (f *fakePingClient) GetNumVBuckets() int                      { return 0 }
-func (f *fakePingClient) CloseStream(uint16) error                 { return nil }
-func (f *fakePingClient) GetAgentQueues() []*models.AgentQueue     { return nil }
+func (f *fakePingClient) GetAgent() *gocbcore.Agent                                { return nil }
+func (f *fakePingClient) GetMetaAgent() *gocbcore.Agent                            { return nil }
+func (f *fakePingClient) Connect() error                                           { return nil }
+func (f *fakePingClient) Close()                                                   {}
+func (f *fakePingClient) DcpConnect(bool, bool) error                              { return nil }
+func (f *fakePingClient) DcpClose()                                                {}
+func (f *fakePingClient) GetNumVBuckets() int                                      { return 0 }
+func (f *fakePingClient) CloseStream(uint16) error                                 { return nil }
+func (f *fakePingClient) GetAgentQueues() []*models.AgentQueue                     { return nil }
 func (f *fakePingClient) GetFailOverLogs(uint16) ([]gocbcore.FailoverEntry, error) { return nil, nil }
 func (f *fakePingClient) GetVBucketSeqNos(bool) (*wrapper.ConcurrentSwissMap[uint16, uint64], error) {
 	return nil, nil
@@ -76,9 +76,13 @@ func (f *fakePingClient) GetVBucketSeqNos(bool) (*wrapper.ConcurrentSwissMap[uin
 func (f *fakePingClient) OpenStream(uint16, map[uint32]string, *models.Offset, couchbase.Observer) error {
 	return nil
 }
-func (f *fakePingClient) GetCollectionIDs(string, []string) (map[uint32]string, error) { return nil, nil }
-func (f *fakePingClient) GetAgentConfigSnapshot() (*gocbcore.ConfigSnapshot, error)    { return nil, nil }
-func (f *fakePingClient) GetDcpAgentConfigSnapshot() (*gocbcore.ConfigSnapshot, error) { return nil, nil }
+func (f *fakePingClient) GetCollectionIDs(string, []string) (map[uint32]string, error) {
+	return nil, nil
+}
+func (f *fakePingClient) GetAgentConfigSnapshot() (*gocbcore.ConfigSnapshot, error) { return nil, nil }
+func (f *fakePingClient) GetDcpAgentConfigSnapshot() (*gocbcore.ConfigSnapshot, error) {
+	return nil, nil
+}
 
 func init() { scenarios["C19"] = func() Scenario { return &scHealth{} } }
 
